@@ -331,11 +331,15 @@ class OrderedLockError(DurableExecutionsError):
 
     def __init__(self, message: str, source_exception: Exception | None = None) -> None:
         """Initialize with the message and the exception source"""
-        msg = (
-            f"{message} {type(source_exception).__name__}: {source_exception}"
-            if source_exception
-            else message
-        )
+        msg = message
+        if source_exception is not None:
+            try:
+                text = str(source_exception)
+            except Exception:  # noqa: BLE001
+                # the holder's exception is arbitrary user code; whoever waits for the lock
+                # must get this error, not a failure of that exception's __str__
+                text = "<exception str() failed>"
+            msg = f"{message} {type(source_exception).__name__}: {text}"
         super().__init__(msg)
         self.source_exception: Exception | None = source_exception
 
